@@ -167,6 +167,12 @@ Fixpoint sorted_validation_first (seen_other : bool) (l : list event) : bool :=
                else sorted_validation_first true l'
   end.
 
+Definition prev_phase_eqb (a b : prev_phase) : bool :=
+  match a, b with
+  | PSetup, PSetup | PAct, PAct | PBeforeAssert, PBeforeAssert | PAssert, PAssert => true
+  | _, _ => false
+  end.
+
 (** The property stated directly on the observed behaviour (independent of [partial_execute]):
     validation first; halts at the first failure; cleanup exactly once iff sandbox; never a
     success when an executed step failed; the named step is a failing executed step. *)
@@ -181,6 +187,16 @@ Definition P_C01 (tc : testcase) (o : c01_obs) : bool :=
   Nat.eqb (length (filter (fun e => match e with EInstr Cleanup SMain 0 _ => true | _ => false end) tr))
           (if existsb is_sandbox tr && negb (match tc_cleanup tc with [] => true | _ => false end) then 1 else 0) &&
   Bool.eqb (o_has_sds o) (existsb is_sandbox tr) &&
+  (* cleanup is told which phase ran last: decided by the first failing step outside cleanup *)
+  (let first_fail := match filter (fun e => match outcome (beh_of_event tc e) with Some _ => true | None => false end) non_cleanup with
+                     | EInstr p k i _ :: _ => Some (Failure p k i FHard)
+                     | _ => None
+                     end in
+   let expected := prev_of (tc_act_only tc) first_fail in
+   forallb (fun e => match e with
+                     | EInstr Cleanup SMain _ (Some pv) => prev_phase_eqb pv expected
+                     | _ => false
+                     end) cleanup_evs) &&
   (* never a success when any executed step failed; failure names a failing executed step *)
   match failed_events with
   | [] => match o_failing o with None => true | Some _ => false end &&
